@@ -104,6 +104,13 @@ def check_function(ctx, f, key, scalar='long double', skip=()):
                             n['l'], show(n['e'])[:40], v_, n['from'], scalar, scalar))
             if n['ck'] == 'IntegralToFloating':
                 e = strip(n['e'])
+                ec = strip(n['e'], casts=True)
+                if ec.get('k') == 'call' and not ec.get('inrepo') and ec.get('n') in ('accumulate', 'inner_product', 'reduce', 'transform_reduce'):
+                    sg = str(ec.get('sig', ''))
+                    if sg[:sg.find('(')].strip() in ('int', 'unsigned int', 'long', 'unsigned long', 'long long', 'short', 'char', 'bool') and \
+                            any(w in sg + str(ec.get('q', '')) for w in ('double', 'float')):
+                        q5.append('%s: %s over floating-point elements accumulates in %s (the type of its initial value): every partial sum is truncated' % (
+                            ec.get('l'), ec['n'], sg[:sg.find('(')].strip()))
                 if e.get('k') == 'bin' and e['op'] == '/' and str(e.get('t')) in ('int', 'unsigned int', 'long', 'unsigned long'):
                     a, b = strip(e['a'], casts=True), strip(e['b'], casts=True)
                     if not (a.get('k') == 'int' and b.get('k') == 'int' and int(b['v']) != 0 and int(a['v']) % int(b['v']) == 0):
@@ -137,7 +144,7 @@ def run(ctx, prog):
     ctx.rule('C09.Q2', 'no local, parameter or return of type double/float in those functions')
     ctx.rule('C09.Q3', 'every <cmath> call resolves to the long double overload')
     ctx.rule('C09.Q4', 'every double/float literal taking part in an evaluator is exactly representable (clang APFloat exactness of the source spelling)')
-    ctx.rule('C09.Q5', 'no integer/integer division whose result is converted to floating point unless both operands are literals and the division is exact')
+    ctx.rule('C09.Q5', 'no integer/integer division whose result is converted to floating point unless both operands are literals and the division is exact; no std::accumulate / inner_product over floating-point elements with an integer accumulator')
     ctx.rule('C09.Q7', 'no evaluator, after its helpers are inlined, takes log() of a value produced by exp(): the composition loses the range and, near the limits, the digits of the working precision')
     ctx.rule('C09.Q6', 'pi, PI and twopi of the long double instantiation are initialised through long double overloads from exact arguments')
     ctx.explanation = ('Necessary conditions for "the long double interface is not silently limited to double accuracy": any Q-violation is a concrete site where a '
